@@ -1,0 +1,76 @@
+//! Verification hook (only compiled with `--cfg logos_verif`; needs `std`).
+//!
+//! A thread-local event log of what the lexer does: every `next`, every
+//! `read(offset, size) -> some/none` issued by generated code, every
+//! `end` / `end_to_boundary` / `trivia`, and every `bump`. Recording is off
+//! unless a harness calls [start]; the hook never dereferences a chunk.
+
+extern crate std;
+
+use std::cell::RefCell;
+use std::vec::Vec;
+
+/// `Iterator::next` was called; `a` = token_start after the reset.
+pub const NEXT: u8 = 0;
+/// `LexerInternal::read`; `a` = offset, `b` = chunk size, `c` = 1 if `Some`,
+/// `d` = address of a local (stack depth probe).
+pub const READ: u8 = 1;
+/// `LexerInternal::end`; `a` = offset.
+pub const END: u8 = 2;
+/// `LexerInternal::end_to_boundary`; `a` = requested offset, `b` = resulting token_end.
+pub const ENDB: u8 = 3;
+/// `LexerInternal::trivia`; `a` = new token_start.
+pub const TRIVIA: u8 = 4;
+/// `Lexer::bump` entered; `a` = n, `b` = token_end before.
+pub const BUMP: u8 = 5;
+/// `Lexer::bump` returned normally; `a` = token_end after.
+pub const BUMPED: u8 = 6;
+
+/// One recorded event.
+#[derive(Clone, Copy, Debug, PartialEq, Eq)]
+pub struct Event {
+    /// One of the constants of this module.
+    pub kind: u8,
+    /// First argument.
+    pub a: usize,
+    /// Second argument.
+    pub b: usize,
+    /// Third argument.
+    pub c: usize,
+    /// Fourth argument.
+    pub d: usize,
+}
+
+thread_local! {
+    static LOG: RefCell<Option<Vec<Event>>> = const { RefCell::new(None) };
+}
+
+/// Record one event (no-op when recording is off).
+#[inline(never)]
+pub fn emit(kind: u8, a: usize, b: usize, c: usize) {
+    let probe = 0u8;
+    let d = &probe as *const u8 as usize;
+    LOG.with(|l| {
+        if let Some(v) = l.borrow_mut().as_mut() {
+            v.push(Event { kind, a, b, c, d });
+        }
+    })
+}
+
+/// Start recording on the current thread.
+pub fn start() {
+    LOG.with(|l| *l.borrow_mut() = Some(Vec::new()));
+}
+
+/// Return the events recorded so far and keep recording.
+pub fn drain() -> Vec<Event> {
+    LOG.with(|l| match l.borrow_mut().as_mut() {
+        Some(v) => core::mem::take(v),
+        None => Vec::new(),
+    })
+}
+
+/// Stop recording and return what was recorded.
+pub fn finish() -> Vec<Event> {
+    LOG.with(|l| l.borrow_mut().take().unwrap_or_default())
+}
